@@ -50,6 +50,9 @@ Obligations (what a VIOLATION names)
    (records fixed-C02-empty-frame-zero-byte-part-file / fixed-C07-empty-frame-append-crashes); part.empty_frame_opens_no_file_and_appends_nothing:
    a frame without rows is skipped before any file is opened - `written` in the invariant are the frames WITH rows, in order
    partition.writer_gets_frame_columns_root_partname_fmd
+   part.name_opened_is_numbered_past_every_existing_part[open_with | partition_on_columns]   append: the NAME actually opened / handed to the
+       partition writer is part.<n>.parquet with n >= find_max_part(fmd.row_groups) - by value, whatever variable carries it: a re-binding of
+       `part` from len(rg_list) / a counter is refuted (seed C18-m10: a refused append would open a live part file 'wb')
    closing.row_groups_is_old_followed_by_written, closing.num_rows_is_sum_over_all_row_groups,
    closing.metadata_holds_all_row_groups_old_then_new, closing.metadata_num_rows_is_sum_over_its_row_groups,
    closing.metadata_then_common_metadata_under_the_root, closing.summary_gets_the_datasets_fmd_and_open_with
@@ -1238,6 +1241,7 @@ def _run_write_multi(ctx, funcs, timeout, append, partition, scheme, inv_fmd):
         mode = args[1].s if len(args) > 1 and isinstance(args[1], Str) else "?"
         k = next(_ids)
         ev(p, "open", k, args[0], mode)
+        oblige_past_existing(eng, p, args[0], "open_with", node)
         return [(p, Custom(FileTok(k)))]
 
     def h_make_part_file(eng, p, args, kw, node):
@@ -1259,6 +1263,7 @@ def _run_write_multi(ctx, funcs, timeout, append, partition, scheme, inv_fmd):
     def h_poc(eng, p, args, kw, node):
         """contract (contracts/c08_paths.py partition_on_columns.*): returns the list of the NEW row groups it wrote, file_path set"""
         ev(p, "partition_on_columns", list(args), dict(kw))
+        oblige_past_existing(eng, p, args[3] if len(args) > 3 else kw.get("partname"), "partition_on_columns", node)
         k = next(_ids)
         PATN = z3.Function(f"partition_rg!{k}", I, I)
         M = z3.Int(f"n_partition_rgs!{k}")
@@ -1279,9 +1284,32 @@ def _run_write_multi(ctx, funcs, timeout, append, partition, scheme, inv_fmd):
         return [(p, NONE)]
 
     def h_find_max_part(eng, p, args, kw, node):
+        """contract (contracts/c07_parts.py find_max_part.fresh): the result is greater than the part number of EVERY referenced file"""
         n = eng.fresh_int("i_offset")
         p.pc.append(n >= 0)
+        ok = len(args) == 1 and isinstance(args[0], Custom) and isinstance(args[0].h, ListObj) and \
+            solve(list(p.pc) + [z3.Not(lv_eq(args[0].h.val(p), OLD))], timeout)[0] == PROVED
+        p.ghost["fmp"] = n if ok else None
+        p.ghost["fmp_seen"] = True
         return [(p, PyI(n))]
+
+    def oblige_past_existing(eng, p, name_val, what, node):
+        """the file NAME actually opened / handed to the partition writer is part.<n>.parquet with n >= find_max_part(the dataset's row groups)
+        - the only number known to lie past every existing part; a number taken from anywhere else (len(rg_list), a counter) does not"""
+        if not append:
+            return
+        v = name_val
+        if isinstance(v, Custom) and isinstance(v.h, JoinedPath):
+            v = v.h.parts[-1]
+        fmp = p.ghost.get("fmp")
+        nm = f"write_multi.part.name_opened_is_numbered_past_every_existing_part[{what}]"
+        note = "an append opens only part.<n>.parquet with n >= find_max_part(fmd.row_groups) (> every existing part number): an existing " \
+               "part file is never opened 'wb', not even by an append that is then refused"
+        if not (isinstance(v, Custom) and isinstance(v.h, PartName)) or fmp is None:
+            eng.oblige(p, nm, "post", z3.BoolVal(False), node, note=note + " - the name is not 'part.%i.parquet' % <number>, or find_max_part "
+                                                                      "was not applied to the dataset's row groups")
+            return
+        eng.oblige(p, nm, "post", v.h.n >= fmp, node, note=note)
 
     def h_sum(eng, p, args, kw, node):
         v = args[0]
